@@ -77,9 +77,13 @@ class LayerNormFusion(pattern.RewriteRuleClassBase):
 
         return normalized_scaled
 
-    def check(self, context, x, epsilon, **_) -> pattern.MatchResult:  # type: ignore[name-defined]
+    def check(self, context, x, scale, epsilon, **_) -> pattern.MatchResult:  # type: ignore[name-defined]
         """Check if the pattern matches conditions for use of LayerNormalization op."""
         check_result = pattern.MatchResult()
+
+        if x.shape is None or scale.shape is None or scale.shape.rank() > x.shape.rank():
+            # Mul broadcasts both ways; LayerNormalization's scale must broadcast to x.
+            return check_result.fail("Scale must not have a higher rank than the input.", scale)
 
         # Type validation:
         if x.dtype not in LAYER_NORM_COMPUTE_TYPES:
@@ -110,6 +114,13 @@ class LayerNormBiasFusion(pattern.RewriteRuleClassBase):
 
     def pattern(self, op, x, scale, bias):
         return op.LayerNormalization(x, scale, _outputs=["normalized"]) + bias
+
+    def check(self, context, x, bias, **_) -> pattern.MatchResult:  # type: ignore[name-defined]
+        check_result = pattern.MatchResult()
+        if x.shape is None or bias.shape is None or bias.shape.rank() > x.shape.rank():
+            # Add broadcasts both ways; LayerNormalization's bias must broadcast to x.
+            return check_result.fail("Bias must not have a higher rank than the input.", bias)
+        return check_result
 
     def rewrite(self, op, x, scale, bias, normalized):
         layernorm_node = normalized.producer()
